@@ -6,6 +6,12 @@ Import ListNotations.
 Require Import V.lib.Civil V.models.Timer V.proofs.TimerProofs V.proofs.TimerCalendarFacts.
 Open Scope Z_scope.
 
+(* keep the calendar functions folded in conversion checks *)
+Strategy opaque [month_next month_next_loop civil_from_days dom_of month_of].
+
+Lemma sub_assoc1 : forall a b : Z, a - 1 - b = a - (1 + b).
+Proof. intros; ring. Qed.
+
 (* ------------------------------------------------------------------ weekdays *)
 Lemma weekday_hit : forall D a, 0 <= a <= 6 -> weekday_of (D + (a - weekday_of D) mod 7) = a.
 Proof. intros D a Ha. unfold weekday_of. Z.div_mod_to_equations. lia. Qed.
@@ -59,9 +65,7 @@ Lemma last_same_month : forall D c, dom_of D = 1 -> month_next (find_last_weekda
 Proof.
   intros D c HD. unfold find_last_weekday. destruct (month_start_facts D HD) as (_ & N1 & _ & _).
   destruct (month_start_facts (month_next D) N1) as (_ & _ & _ & J).
-  pose proof (last_offset (month_next D) c) as LO.
-  set (N := month_next D) in *. set (m := (weekday_of (N - 1) - c) mod 7) in *.
-  replace (N - 1 - m) with (N - (1 + m)) by ring. apply J. exact LO.
+  rewrite sub_assoc1. apply J. apply last_offset.
 Qed.
 
 Lemma last_idem : forall D c x, dom_of D = 1 ->
@@ -181,7 +185,7 @@ Proof.
     set (step := Z.quot (Z.abs (clock_sub (cs_end ts) (cs_start ts))) (split ts)).
     assert (St : 0 <= step) by (apply Z.quot_pos; lia).
     split.
-    + destruct (Z.to_nat (split ts)) eqn:EN; [lia|]. cbn. discriminate.
+    + intros Hm. apply map_eq_nil in Hm. destruct (Z.to_nat (split ts)) eqn:EN; [lia | cbn [seq] in Hm; discriminate].
     + intros cs Hin. apply in_map_iff in Hin as (i & <- & _). cbn [cs_start cs_end].
       assert (A : clock_nonneg (clock_add (cs_start ts) (Z.of_nat i * step))) by (apply clock_add_nonneg; [exact Ws | lia]).
       split; [exact A | apply clock_add_nonneg; [exact A | exact St]].
@@ -191,13 +195,12 @@ Lemma flattened_ok : forall s, forallb cs_wf (clockspans s) = true ->
   flattened s <> [] /\ forall cs, In cs (flattened s) -> clock_nonneg (cs_start cs) /\ clock_nonneg (cs_end cs).
 Proof.
   intros s W. unfold flattened.
-  set (l := match clockspans s with [] => [mkCS (mkClock 0 0) (mkClock 0 0) 0 false] | _ :: _ => clockspans s end).
+  set (l := match clockspans s with [] => [mkCS (mkClock 0 0) (mkClock 0 0) 0 false] | c :: l0 => c :: l0 end).
   assert (Wl : forallb cs_wf l = true) by (unfold l; destruct (clockspans s); [reflexivity | exact W]).
   assert (Nl : l <> []) by (unfold l; destruct (clockspans s); discriminate).
   rewrite forallb_forall in Wl. split.
   - destruct l as [|ts l']; [contradiction|]. cbn [flat_map].
-    destruct (clock_spans_ok ts (Wl ts (or_introl eq_refl))) as [N _].
-    destruct (clock_spans ts); [contradiction | discriminate].
+    intros H. apply app_eq_nil in H as [H _]. exact (proj1 (clock_spans_ok ts (Wl ts (or_introl eq_refl))) H).
   - intros cs Hin. apply in_flat_map in Hin as (ts & Hts & Hcs). exact (proj2 (clock_spans_ok ts (Wl ts Hts)) cs Hcs).
 Qed.
 
@@ -271,4 +274,30 @@ Proof.
   - replace (last / 86400 + (D - last / 86400)) with D by ring. exact M.
   - replace (last / 86400 + (D - last / 86400)) with D by ring. unfold D0 in *. lia.
   - replace (last / 86400 + (D - last / 86400)) with D by ring. unfold D0 in *. lia.
+Qed.
+
+(* ... hence, unconditionally: Schedule.Next returns a window of the schedule *)
+Theorem next_in_window_total : forall (s : schedule) (last now : Z), sched_wf s = true ->
+  exists w k cs, sched_next (next_fuel last now) s last now = Some w /\
+    0 <= k < Z.of_nat (next_fuel last now) /\ In cs (flattened s) /\
+    let D := last / 86400 + k in
+    w = window_of cs D /\ week_ok s D = true /\ now <= w_end w /\ (last < w_start w \/ w_end w < last) /\
+    (forall cs', In cs' (flattened s) -> now <= w_end (window_of cs' D) ->
+                 (last < w_start (window_of cs' D) \/ w_end (window_of cs' D) < last) ->
+                 w_start w <= w_start (window_of cs' D)).
+Proof.
+  intros s last now W. destruct (next_fuel_suffices s last now W) as (w & Hw).
+  destruct (next_in_window _ s last now w Hw) as (k & cs & Hk & Hin & H).
+  exists w, k, cs. split; [exact Hw | split; [exact Hk | split; [exact Hin | exact H]]].
+Qed.
+
+(* more fuel never changes the answer *)
+Lemma next_from_more_fuel : forall f s tsp now last t w, next_from f s tsp now last t = Some w ->
+  forall g, (f <= g)%nat -> next_from g s tsp now last t = Some w.
+Proof.
+  induction f as [|f IH]; intros s tsp now last t w H g Hg; [discriminate|].
+  destruct g as [|g]; [lia|]. cbn [next_from] in *.
+  destruct (negb (week_ok s (t / 86400))); [apply IH; [exact H | lia]|].
+  destruct (fold_left (pick now last (t / 86400)) tsp None) as [w0|]; [|apply IH; [exact H | lia]].
+  destruct (w_end w0 <? now); [apply IH; [exact H | lia] | exact H].
 Qed.
